@@ -5,6 +5,30 @@ V = os.path.dirname(os.path.dirname(os.path.abspath(__file__)))
 PY = "PYTHONPATH=/repo PYTHONHASHSEED=0 /venv/bin/python"
 
 CHECKS = {
+ "C05": dict(
+   text="Theorem (Coquelicot is_derive): for every expression of the distribution syntax (separable leaves = StandardNormal1D/Normal diag/Laplace/Uniform, full "
+        "quadratic forms, Himmelblau; nodes = Additive/BayesRule, Composite, Mixture, log-transform, temperature scaling), every admissible point and every "
+        "coordinate, the gradient component is the partial derivative of the misfit; gradient has the point's dimension; the leaf classes are admissible (Laplace "
+        "away from kinks). Tie: for random nestings of the real classes the misfit and every gradient component must lie in the Coq-Interval enclosure of the model; "
+        "plus shape, value-functionality under in-place mutation, finite differences; LinearMatrix and SourceLocation instances included (models of C15/C17).",
+   note="Trusted: Coq kernel; stdlib real axioms + classic (Coquelicot); Coq-Interval at tactic level for the correspondence; harness. n-ary wrappers are nested "
+        "binary nodes; precomputed inverse covariances / constants enter the model as data.",
+   technique="Coq proof (Coquelicot derivative, structural induction over distribution syntax) + interval-arithmetic correspondence", ref="5/C05"),
+ "C13": dict(
+   text="Eleven theorems: additive sum; collapsed bounds = intersection (violating iff some part violates) and idempotence; composite blocks and block-wise corrector; "
+        "mixture formula with matching derivative; log-space change of variables exp(-misfit(m)) = exp(-misfit(log_b m)) prod 1/(m_i ln b); temperature; scalar / "
+        "per-dimension / diagonal-matrix Normal encodings coincide. Tie: interval enclosures of wrapper nestings; wrapper output vs the parts' own outputs; collapsed "
+        "bounds vs DECLARED part bounds with parts reused across wrappers; corrector per block; negative components in log space.",
+   note="Trusted: Coq kernel, stdlib real axioms; harness. Coq's total ln makes the 'negative component => zero probability' clause an implementation-only check.",
+   technique="Coq proof (list/real algebra) + interval-arithmetic and part-wise correspondence", ref="5/C13"),
+ "C14": dict(
+   text="Seven theorems: normalised Normal (scalar/per-dimension) and Laplace misfits equal -ln of the textbook product densities for every dimension, parameters and "
+        "point; push-forward identities of the generate() constructions (mu+sigma z, mu+b z, base^x Jacobian, composite product, mixture convex combination). Tie: "
+        "misfit after normalize() inside the Coq-Interval enclosure of -ln pdf (constants recomputed in Coq, determinant as exact rational); generate(repeat, rng) with a "
+        "recording generator (which primitive, which parameters, image, shape, determinism); moment batches as search.",
+   note="Trusted: the textbook densities integrate to one and NumPy's sampling primitives have their documented laws (not mechanised); full-covariance case uses "
+        "the determinant as data (exact rational computed by the harness).",
+   technique="Coq proof (real analysis of log densities, push-forward identities) + interval correspondence + recorded-generator co-execution", ref="5/C14"),
  "C01": dict(
    text="Nine theorems: every integrator program is a palindrome (any arithmetic); drift and kick times each sum to stepsize*steps for all literals, and a "
         "single random factor scales them uniformly; a general reversibility theorem for drift/kick programs; its instances for unbounded targets (any "
